@@ -24,7 +24,7 @@ POLS = ["random", "masked", "invalid_late", "survive", "mixed", "first", "surviv
 
 
 def shards(tier: str, seed: int) -> List[Dict[str, Any]]:
-    return env_cfg_shards(tier, E.ENVS, HEAVY, prop="C03")
+    return env_cfg_shards(tier, E.ENVS, HEAVY, prop="C03", seed=seed)
 
 
 class ProtocolMonitor(Monitor):
